@@ -1119,6 +1119,14 @@ pub fn generate(repo: &PathBuf) -> Result<String, String> {
         return Err("cmd::node::add: peers_args is modified in a way I do not know".into());
     }
 
+    // `antctl add` gives a service a user only at system level: `user_mode = !root`, `service_user = if user_mode { None } else { Some(..) }`,
+    // both handed to add_node unchanged
+    let user_only_at_system_level = add_cmd_src.contains("letuser_mode=!is_running_as_root();")
+        && add_cmd_src.contains("letservice_user=ifuser_mode{None}else{")
+        && add_cmd_src.contains("user:service_user,")
+        && add_cmd_src.contains("user_mode,")
+        && add_cmd_src.matches("user_mode=").count() == 1;
+
     // (f) service level (system / user) handed to the service manager: `add_node`, `ServiceManager::upgrade`
     let libf = parse_file(&repo.join("ant-node-manager/src/lib.rs"))?;
     let is_user_mode = impl_fn(&svc, "NodeService", Some("ServiceStateActions"), "is_user_mode")?;
@@ -1298,6 +1306,7 @@ pub fn generate(repo: &PathBuf) -> Result<String, String> {
     s.push_str(&lean_assoc("localsLiteral", "locals of `add_node` computed from the options by string functions (read by both struct literals)", &locals_lit));
     s.push_str(&format!("/-- `antctl add` appends `ANT_PEERS` to `--peer` only when `--first` is not set -/\ndef envPeersSkippedForFirst : Bool := {}\n", lean_bool(env_peers_guarded)));
     s.push_str(&format!("/-- `antctl add` keeps a `--bootstrap-cache-dir` given by the user (the service user's default only fills the gap); false = overwrites it -/\ndef addKeepsUserBootstrapCacheDir : Bool := {}\n", lean_bool(add_keeps_cache_dir)));
+    s.push_str(&format!("/-- `antctl add`: a service user is set only for a system-level service (`service_user = if user_mode {{ None }} else {{ Some(..) }}`, both handed to `add_node` unchanged) -/\ndef addServiceUserOnlyAtSystemLevel : Bool := {}\n", lean_bool(user_only_at_system_level)));
     let lean_one = |name: &str, doc: &str, v: &Src| format!("/-- {doc} -/\ndef {name} : Src := {}\n", lean_src(v));
     s.push_str(&lean_one("addInstallLevel", "second argument of `service_control.install(..)` in `add_node` (true = user level)", &add_install_level));
     s.push_str(&lean_one("upgradeUninstallLevel", "`ServiceManager::upgrade`: level handed to `uninstall` (a registry field, through `NodeService::is_user_mode`)", &upgrade_uninstall_level));
